@@ -216,7 +216,9 @@ type Up struct {
 	DisconnectEnd time.Time
 	gone          atomic.Bool
 
-	Served    atomic.Int64
+	Served     atomic.Int64
+	TCPClosed  atomic.Int64
+	TCPHandler func(c net.Conn) // optional override of the stamp+echo behaviour
 	Handler   func(u *Up, w http.ResponseWriter, r *http.Request, rec *Recorded) // optional override
 	mu        sync.Mutex
 	Seen      []*Recorded
@@ -254,8 +256,13 @@ func (u *Up) LastSeen() *Recorded {
 }
 
 func (u *Up) serveTCPConn(c net.Conn) {
+	defer u.TCPClosed.Add(1)
 	defer c.Close()
 	u.Served.Add(1)
+	if u.TCPHandler != nil {
+		u.TCPHandler(c)
+		return
+	}
 	if _, err := fmt.Fprintf(c, "STAMP %s %s\n", u.Endpoint, u.ID); err != nil {
 		return
 	}
